@@ -127,7 +127,7 @@ def sqlite_eval(sql, tables, asg):
     for d in sorted({t['db'] for t in tables}):
         con.execute("attach ':memory:' as %s" % d)
     for t, rows in zip(tables, asg):
-        con.execute('create table %s.%s (%s)' % (t['db'], t['name'], ', '.join(t['cols'])))
+        con.execute('create table %s.%s (%s)' % (t['db'], t['name'], ', '.join('"%s"' % c_ for c_ in t['cols'])))
         for r in rows:
             con.execute('insert into %s.%s values (%s)' % (t['db'], t['name'], ','.join('?' * len(r))),
                         [None if v == NULL else v for v in r])
